@@ -19,7 +19,8 @@ TECHNIQUE = 'stateless model checking of the real config service / task handler 
 RULE = ('poll scripts: first poll answers UPDATE v1, polls 2..3 each in {same version, version advanced, call fails, unintelligible response, update that cannot be converted}; '
         'registration scripts: none / register / register+unregister / register twice; threads: poller, application, 2 pool workers; every '
         'schedule with <= bound preemptions at line granularity in config/tracepoint_config.py, task, poll, TriggerHandler.new_config; '
-        'non-trivial = at least two update tasks were pending together or a poll failed')
+        'non-trivial = at least two update tasks were pending together or a poll failed'
+        ' ; poll actions also: response of an unknown type, conversion failure injected at the convert_response seam; two agents in one process (one after the other / side by side) built as deep.start() builds them')
 ASSUMPTIONS = ['the service answers NO_CHANGE iff the reported hash equals its current hash (server model)',
                'an unintelligible poll is a response object the client cannot read (the stub returns garbage); a single uninterpretable tracepoint is C11',
                'thread switches at source-line granularity in the listed modules and at every shim operation']
